@@ -5,6 +5,7 @@
      spec ok | spec VIOLATION <clause>@<gp> ...          restrict_spec_check (rc=0) or einval_identity + raw text identity (rc<0)
      attrs ok | attrs VIOLATION gp,...                   name/subtype/infos/attributes/userdata of survivors (raw dump text)
      wf ok | wf VIOLATION ...                            wf_check after
+     init wf ok | init wf VIOLATION ...                  wf_check on a dump printed outside a step (initial topology)
      model ok | model DIFF <what>                        restrict_topo (tree_of_dump before) vs after
      api ok | api DIFF                                   public accessors vs dump *)
 let show_viols vs = Stdlib.String.concat " " (Stdlib.List.map (fun (c, i) -> ocaml_of_coq_string c ^ "@" ^ dec_of_n i) vs)
@@ -90,7 +91,11 @@ let () =
        let p = parse_dump_lines lines in
        match !pending with
        | Some st -> (match !cur with Some b -> on_step b p st | None -> print_endline "step without-before"); pending := None; cur := Some p
-       | None -> cur := Some p)
+       | None ->
+           (match wf_check p.pd with
+            | [] -> print_endline "init wf ok"
+            | vs -> print_endline ("init wf VIOLATION " ^ show_viols vs));
+           cur := Some p)
     (fun l ->
        if Stdlib.String.length l > 2 && l.[0] = 'R' && l.[1] = ' ' then begin
          let h = kv_tbl (split_on ' ' l) in
